@@ -44,7 +44,8 @@ FAULTS = {
                              'j (', 'call (', 'tail (1', 'beqz x8, (', 'bgt x1, x2, (', 'jal (', 'bnez x8, )'],
     'expression_evaluation': ['K2 = 1 << -1', 'addi x1, x1, 1 << -1', 'li x5, 1 << (K1 - 20)', 'dw 1 >> -2', 'K2 = 7 // 0', 'db 7 % 0', 'lui x5, 1 << (K1 - 13)',
                               'K2 = K1 // (K1 - 12)', 'sw x1, x2, 4 % 0', 'pack <I 1 << -4'],
-    'non_integer': ['K2 = 1.5', 'K2 = 4 / 2', 'K2 = "s"', 'addi x1, x1, 1.5', 'dw 2.0', 'li x5, 1e3', 'db 3 / 1', 'K2 = None', 'lw x8, 0.0(x8)', 'dh [1]'],
+    'non_integer': ['K2 = 1.5', 'K2 = 4 / 2', 'K2 = "s"', 'addi x1, x1, 1.5', 'dw 2.0', 'li x5, 1e3', 'db 3 / 1', 'K2 = None', 'lw x8, 0.0(x8)', 'dh [1]',
+                    'fence rw, rw', 'fence 3, w', 'fence iorw, 1', 'fence 1.5, 1', 'amoadd.w x1, x2, x3, yes, 0', 'lr.w x1, x2, 0, aq'],
     # a constant has no position: a position-relative modifier in its definition (at any nesting depth) names nothing
     'position_relative_constant': ['K2 = %offset(START)', 'K2 = %hi(%offset(START))', 'K2 = %lo(%offset(K1))', 'K2 = %lo(%offset(sp))',
                                    'K2 = %hi(%lo(%offset(K1)))', 'K2 = %lo(%offset(8))'],
